@@ -4,7 +4,7 @@ EXPLANATION = ('Every throwing entry point that has a target or an rvalue argume
                'operator+=(char32_t), string + char32_t, string_stream << char16_t* / char32_t* -- runs from an ARBITRARY valid target state (both storage modes) on ARBITRARY data; when an exception is pending afterwards it is ST::unicode_error, '
                'the target keeps its bytes, size and data pointer, the (lvalue or rvalue) argument still holds its value, all invariants hold and destroying everything leaves no live block. The throwing path is a reachability witness. '
                'Decoders (codec_error) and the format parser (bad_format / out_of_range) build a fresh result: their no-leak-on-throw clause is asserted in C15 and C10.')
-BOUNDS = {'quick': 'target <= 5 bytes (small-string limit 4), argument of 2 units (3 for UTF-8 through char_buffer), every validation mode', 'thorough': 'arguments of 3..4 units'}
+BOUNDS = {'quick': 'target <= 5 bytes (small-string limit 4), argument of 2 units (3 for UTF-8 through char_buffer), every validation mode; constructors string(char_buffer&& / const char_buffer&) under check_validity with 3-byte arguments', 'thorough': 'arguments of 3..4 units'}
 OUTSIDE = 'longer arguments; ST::format with an rvalue argument (std::function takes its arguments by value: moved-from by design)'
 OPS = {1: 'set_cbuf', 2: 'set_cbuf_move', 3: 'assign_cbuf', 4: 'assign_cbuf_move', 5: 'set_ptr', 6: 'assign_cstr', 7: 'assign_u16buf', 8: 'assign_u32buf', 9: 'append_c32', 10: 'append_cstr', 11: 'concat_c32', 12: 'stream_u16', 13: 'stream_u32', 14: 'ctor_cbuf_move', 15: 'ctor_cbuf'}
 def queries():
